@@ -39,9 +39,11 @@ def _truly_empty(c):
     return bool(c.is_empty())
 
 
-def _allowed_strategy(strategy, comb_class):
+def _allowed_strategy(strategy, comb_class, children=()):
     """Is `strategy` one of the packs' strategies, or produced by one of their factories
-    on this class?"""
+    on this class - or, for rules about another class than the one being expanded, on one of
+    the rule's children (a factory may yield a rule whose parent is not the class it was
+    called on; the searcher meets it while expanding that other class)?"""
     from comb_spec_searcher.strategies.rule import AbstractRule
     from comb_spec_searcher.strategies.strategy import AbstractStrategy, EmptyStrategy, StrategyFactory
 
@@ -53,13 +55,15 @@ def _allowed_strategy(strategy, comb_class):
     for pack in packs:
         for s in pack:
             if isinstance(s, StrategyFactory):
-                try:
-                    for x in s(comb_class):
-                        cand = x.strategy if isinstance(x, AbstractRule) else x
-                        if isinstance(cand, AbstractStrategy) and cand == strategy:
-                            return True
-                except Exception:  # noqa: BLE001
-                    pass
+                for c in (comb_class,) + tuple(children):
+                    try:
+                        for x in s(c):
+                            cand = x.strategy if isinstance(x, AbstractRule) else x
+                            if isinstance(cand, AbstractStrategy) and cand == strategy:
+                                if c is comb_class or (isinstance(x, AbstractRule) and x.comb_class == comb_class):
+                                    return True
+                    except Exception:  # noqa: BLE001
+                        pass
             elif s == strategy:
                 return True
     return False
@@ -84,7 +88,7 @@ def _genuine(rule, path="rule"):
             return None  # verification rules with dependencies: not produced by any workload
         if not rule.strategy.verified(rule.comb_class):
             return f"{path}: verification strategy {rule.strategy!r} does not verify {rule.comb_class!r}"
-        if not _allowed_strategy(rule.strategy, rule.comb_class):
+        if not _allowed_strategy(rule.strategy, rule.comb_class, getattr(rule, 'children', ())):
             return f"{path}: verification strategy {rule.strategy!r} is not in the pack"
         return None
     if isinstance(rule, EquivalencePathRule):
@@ -140,7 +144,7 @@ def _genuine(rule, path="rule"):
             return f"{path}: strategy {rule.strategy!r} does not apply to {rule.comb_class!r}"
         if kids != tuple(rule.children):
             return f"{path}: strategy {rule.strategy!r} on {rule.comb_class!r} gives {kids}, rule has {tuple(rule.children)}"
-        if not _allowed_strategy(rule.strategy, rule.comb_class):
+        if not _allowed_strategy(rule.strategy, rule.comb_class, getattr(rule, 'children', ())):
             return f"{path}: strategy {rule.strategy!r} is not in (or produced by) the pack"
         return None
     return f"{path}: unknown rule form {type(rule).__name__}"
